@@ -138,11 +138,94 @@ Proof.
     rewrite bytes_eqb_neq by exact N. exact IH.
 Qed.
 
+Lemma find_partitions_app t a b :
+  find_partitions t (a ++ b) = find_partitions t a ++ find_partitions t b.
+Proof. unfold find_partitions. rewrite filter_app, map_app. reflexivity. Qed.
+
+Lemma find_partitions_flat_map {A} t (f : A -> list partition) l :
+  find_partitions t (flat_map f l) = flat_map (fun x => find_partitions t (f x)) l.
+Proof.
+  induction l as [|x l IH]; [reflexivity|]. cbn [flat_map]. rewrite find_partitions_app, IH. reflexivity.
+Qed.
+
+Lemma topic_missing_nil cluster t : topic_exists cluster t = false -> find_partitions t cluster = [].
+Proof.
+  unfold topic_exists, find_partitions. induction cluster as [|p cl IH]; [reflexivity|].
+  cbn [existsb filter]. destruct (bytes_eqb (p_topic p) t); cbn [orb]; [discriminate|exact IH].
+Qed.
+
+(* one single-topic request: the partitions of that topic, or nothing when it is unknown *)
+Lemma find_partitions_single t t' cluster :
+  find_partitions t (match broker_read cluster [t'] with Some ps => ps | None => [] end) =
+  if bytes_eqb t t' then find_partitions t cluster else [].
+Proof.
+  unfold broker_read. cbn [forallb]. rewrite andb_true_r.
+  destruct (topic_exists cluster t') eqn:E.
+  - rewrite find_partitions_read. cbn [existsb]. rewrite orb_false_r. reflexivity.
+  - destruct (bytes_eqb_spec t t') as [->|]; [|reflexivity].
+    rewrite (topic_missing_nil _ _ E). reflexivity.
+Qed.
+
+Lemma find_partitions_read_each t cluster topics : NoDup topics ->
+  find_partitions t (read_each cluster topics) =
+  if existsb (bytes_eqb t) topics then find_partitions t cluster else [].
+Proof.
+  unfold read_each. rewrite find_partitions_flat_map.
+  induction topics as [|t' l IH]; intros Hnd; [reflexivity|].
+  inversion Hnd; subst. cbn [flat_map existsb]. rewrite find_partitions_single, IH by assumption.
+  destruct (bytes_eqb_spec t t') as [->|N]; cbn [orb app]; [|reflexivity].
+  destruct (existsb (bytes_eqb t') l) eqn:E; [|apply app_nil_r].
+  apply existsb_eqb_in in E. contradiction.
+Qed.
+
+Lemma broker_read_missing cluster topics : broker_read cluster topics = None ->
+  exists t, In t topics /\ topic_exists cluster t = false.
+Proof.
+  unfold broker_read. destruct (forallb (topic_exists cluster) topics) eqn:E; [discriminate|].
+  intros _. induction topics as [|t l IH]; [discriminate|]. cbn [forallb] in E.
+  destruct (topic_exists cluster t) eqn:Et.
+  - destruct (IH E) as [t' [H1 H2]]. exists t'. split; [right; exact H1|exact H2].
+  - exists t. split; [left; reflexivity|exact Et].
+Qed.
+
+(* with or without the fallback, the balancer is handed, for a topic, all the cluster has
+   of it iff somebody subscribes (nothing for a topic the cluster lacks) *)
 Lemma find_partitions_leader ms cluster t :
   find_partitions t (leader_partitions ms cluster) =
   if existsb (subscribes t) ms then find_partitions t cluster else [].
 Proof.
-  unfold leader_partitions. rewrite find_partitions_read, extract_topics_subscribed. reflexivity.
+  unfold leader_partitions. rewrite <- extract_topics_subscribed.
+  destruct (extract_topics_spec ms) as [_ [Hnd _]].
+  destruct (broker_read cluster (extract_topics ms)) as [ps|] eqn:E.
+  - unfold broker_read in E. destruct (forallb _ _); [|discriminate]. inversion E; subst.
+    apply find_partitions_read.
+  - destruct (Nat.ltb_spec 1 (length (extract_topics ms))) as [Hl|Hl].
+    + apply find_partitions_read_each. exact Hnd.
+    + destruct (broker_read_missing _ _ E) as [t0 [Hin Hmiss]].
+      destruct (extract_topics ms) as [|t1 [|t2 l]]; [destruct Hin| |cbn in Hl; lia].
+      destruct Hin as [->|[]]. cbn [existsb find_partitions filter map]. rewrite orb_false_r.
+      destruct (bytes_eqb_spec t t0) as [->|]; [|reflexivity].
+      rewrite (topic_missing_nil _ _ Hmiss). reflexivity.
+Qed.
+
+(* the requests: the sorted union first; after an unknown-topic failure with more than one
+   topic, one request per topic in the same order *)
+Lemma leader_requests_spec ms cluster :
+  let topics := extract_topics ms in
+  leader_requests ms cluster =
+  if forallb (topic_exists cluster) topics then [topics]
+  else if 1 <? length topics then topics :: map (fun t => [t]) topics else [topics].
+Proof.
+  cbv zeta. unfold leader_requests, broker_read.
+  destruct (forallb (topic_exists cluster) (extract_topics ms)); [reflexivity|].
+  destruct (1 <? length (extract_topics ms)); reflexivity.
+Qed.
+
+Lemma leader_missing_topic_nothing ms cluster a t :
+  exact_partition ms cluster a -> topic_exists cluster t = false -> topic_parts a t = [].
+Proof.
+  intros [_ [_ H]] Hm. specialize (H t). rewrite (topic_missing_nil _ _ Hm) in H.
+  destruct (existsb (subscribes t) ms); apply Permutation_sym, Permutation_nil in H; exact H.
 Qed.
 
 (* ---- transfer of the balancer theorems from "the partitions handed to the balancer"
